@@ -131,6 +131,31 @@ pub fn run(ctx: &Ctx, rep: &mut Report) {
                 }
             }
         }
+        // (iii-b) every pair of fields of equal width carrying the same value (two identifiers
+        // that happen to be equal, an offset equal to an increment ...): each field must
+        // still be reported on its own
+        if ctx.mine(item) {
+            for (ai, a) in fields.iter().enumerate() {
+                for c in fields.iter().skip(ai + 1) {
+                    if a.width != c.width || a.width < 6 {
+                        continue;
+                    }
+                    for k in 0..4u64 {
+                        let mut bits = fresh(b, &mut r);
+                        let v = match k {
+                            0 => bits.uint(a.start as usize, a.width as usize),
+                            1 => 999_999_999 & ((1u64 << a.width) - 1),
+                            2 => 1,
+                            _ => r.bits(a.width as u32),
+                        };
+                        bits.put(a.start as usize, a.width as usize, v);
+                        bits.put(c.start as usize, c.width as usize, v);
+                        n += 1;
+                        one(rep, b, &bits, via_for(n), a.key, "equal-pair");
+                    }
+                }
+            }
+        }
         // (ii) joint random assignments
         if ctx.mine(item) {
             for _ in 0..ctx.budget(6000, 150_000) {
